@@ -90,6 +90,13 @@ func init() {
 				return L(A("!ERR"), A("materialise: "+err.Error()))
 			}
 		}
+		// every other tree: a root .gitignore whose pattern matches a FILE that sorts first (generated code without any
+		// comment keyword): it reports nothing and must not hide the files behind it
+		if len(in.Nth(1).Items())%2 == 0 {
+			os.WriteFile(filepath.Join(dir, ".gitignore"), []byte("*_generated.java\n*_generated.py\n"), 0o644)
+			os.WriteFile(filepath.Join(dir, "0_generated.java"), []byte("class Generated0 { int x; }\n"), 0o644)
+			os.WriteFile(filepath.Join(dir, "0_generated.py"), []byte("x = 1\n"), 0o644)
+		}
 		exts := in.Nth(0).StrList()
 		defer func() {
 			if r := recover(); r != nil {
